@@ -128,6 +128,10 @@ class AstProfileTransformer(ast.NodeTransformer):
             # The inserted statement belongs to the line of the import
             for new_node in ast.walk(expr):
                 ast.copy_location(new_node, node)
+                # ... its first line, when the import spans several
+                if 'end_lineno' in new_node._attributes:
+                    new_node.end_lineno = new_node.lineno
+                    new_node.end_col_offset = new_node.col_offset
             visited.append(expr)
         return visited
 
